@@ -283,6 +283,8 @@ def evaluate(case):
     if why:
         fails.append("%s: written document differs from the documented layout: %s" % (what, why))
     # nothing beyond the stored paths may appear in a variant's path table
+    if not isinstance(got.get("payload", {}).get("variants"), dict):
+        return fails + ["%s: the written document has no payload/variants table" % what]
     for uid, v in got["payload"]["variants"].items():
         e = exp["payload"]["variants"].get(uid)
         if e is not None and v.get("paths", {}) != e.get("paths", {}):
@@ -332,6 +334,6 @@ def evaluate(case):
                     fails.append("%s: description with release types in capitals is written, but writing the re-read object does not reproduce the file" % what)
             except Exception as exc:
                 fails.append("%s: description with release types in capitals is written but cannot be read back: %s: %s" % (what, type(exc).__name__, exc))
-    if not fails:
+    if not fails and obj["nodes"]:
         fails += ["%s: %s" % (what, f) for f in mutate_and_redump(obj, conc, ci, c2)]
     return fails[:6]
